@@ -1041,23 +1041,21 @@ func (s *State) evalForSpecialForms(fe *ast.ForExpression) (object.Object, bool)
 	}
 	name := ie.Left.Value().Literal()
 	if ie.Right.Value().Type() == token.COLON {
-		start := s.evalInternal(ie.Right.(*ast.InfixExpression).Left)
+		start := object.Value(s.evalInternal(ie.Right.(*ast.InfixExpression).Left))
 		startInt, ok := Int64Value(start)
 		if !ok {
 			return s.NewError("for var = n:m n not an integer: " + start.Inspect()), true
 		}
-		end := s.evalInternal(ie.Right.(*ast.InfixExpression).Right)
+		end := object.Value(s.evalInternal(ie.Right.(*ast.InfixExpression).Right))
 		endInt, ok := Int64Value(end)
 		if !ok {
 			return s.NewError("for var = n:m m not an integer: " + end.Inspect()), true
 		}
 		return s.evalForInteger(fe, &startInt, endInt, name), true
 	}
-	// Evaluate:
-	v := s.evalInternal(ie.Right)
+	// Evaluate (to the value: a variable of an outer scope comes as a reference, an integer one maybe as a register):
+	v := object.Value(s.evalInternal(ie.Right))
 	switch v.Type() {
-	case object.REGISTER:
-		return s.evalForInteger(fe, nil, v.(*object.Register).Int64(), name), true
 	case object.INTEGER:
 		return s.evalForInteger(fe, nil, v.(object.Integer).Value, name), true
 	case object.ERROR:
